@@ -218,6 +218,11 @@ class GlassEaselTemplateInstance implements TemplateInstance {
             const inserts = new Array(newVal.length)
             inserts.fill(true)
             arr.splice(spliceIndex, spliceDel, ...inserts)
+            // a reader of `length` looks it up on the wrapper: the inherited array length is not a mark
+            // (it is 0 after a removal at the front)
+            if (spliceDel !== inserts.length) {
+              ;(cur[field] as { [key: string]: UpdatePathTreeNode }).length = true
+            }
           }
           break
         }
